@@ -2049,7 +2049,11 @@ class Parallel(Logger):
             self._original_iterator = iterator
             if hasattr(pre_dispatch, "endswith"):
                 pre_dispatch = eval_expr(pre_dispatch.replace("n_jobs", str(n_jobs)))
-            self._pre_dispatch_amount = pre_dispatch = int(pre_dispatch)
+            # The calling thread has to dispatch at least one task: with an
+            # empty initial slice (e.g. pre_dispatch='0.25*n_jobs' with
+            # n_jobs=2) nothing would ever run and the call would silently
+            # return no result.
+            self._pre_dispatch_amount = pre_dispatch = max(int(pre_dispatch), 1)
 
             # The main thread will consume the first pre_dispatch items and
             # the remaining items will later be lazily dispatched by async
